@@ -38,7 +38,9 @@ class _DB:
                                 pairs.append((en, v))
         self.std_all = sorted(set(std))
         # strings that can be written in prose without regex-special surprises
-        self.std = [s for s in self.std_all if re.fullmatch(r"[A-Za-z0-9 .&'()\-]+", s)]
+        # ('T.C. at' is listed as a variation of 'T.C.': written out it is literally the short form, so
+        # reporter strings ending in the short-form marker are not usable as a *full* citation's reporter)
+        self.std = [s for s in self.std_all if re.fullmatch(r"[A-Za-z0-9 .&'()\-]+", s) and not s.endswith(" at")]
         self.pairs = sorted(set(pairs))
         self.journals = sorted(k for k, v in JOURNALS.items() if not any(s.get("regexes") for s in v))
         self.known = set(EDITIONS_LOOKUP)
@@ -102,7 +104,7 @@ def pinshape(rng, p):
     return rng.choice([
         f"{p}", f"{p}-{p + rng.randint(1, 9)}", f"{p}, {p + 3}", f"{p}-{p + 2}, {p + 5}",
         f"{p}, n. {rng.randint(1, 9)}", f"{p}:{rng.randint(1, 30)}", f"*{p}",
-        f"{p} & n. {rng.randint(1, 9)}", f"p. {p}", f"¶ {p}",
+        f"{p}, & n. {rng.randint(1, 9)}", f"p. {p}", f"¶ {p}", f"{p}, nn. 3-4", f"pp. {p}-{p + 2}",
     ])
 
 
